@@ -483,6 +483,18 @@ func (s Schema) unknownField(t string, r *rand.Rand) []byte {
 	}
 }
 
+// padKey re-encodes the key of the single field f in one byte more than necessary (well-formed, never produced by an encoder).
+func padKey(f []byte) []byte {
+	_, n := protowire.ConsumeVarint(f)
+	if n <= 0 || n >= 5 {
+		return f
+	}
+	out := append([]byte{}, f[:n]...)
+	out[n-1] |= 0x80
+	out = append(out, 0x00)
+	return append(out, f[n:]...)
+}
+
 // WithUnknowns returns a copy of m with unknown fields added at the top level and, with some probability, inside the messages
 // nested in it (singular, repeated, map values, oneof members): what Unmarshal of newer-schema data leaves behind.
 func (s Schema) WithUnknowns(t string, m AM, r *rand.Rand, depth int) AM {
@@ -646,14 +658,22 @@ func (s Schema) Encode(t string, m AM, o EncOpts) []byte {
 	if o.Sandwich && sr == nil {
 		sr = rand.New(rand.NewSource(int64(len(chunks))*7919 + 17))
 	}
+	// unknown fields with over-long keys: with LongKeys every other one; in a sandwich the last one
+	unk := func(last bool) []byte {
+		u := s.unknownField(t, sr)
+		if (o.LongKeys && sr.Intn(2) == 0) || (o.Sandwich && last) {
+			u = padKey(u)
+		}
+		return u
+	}
 	for _, c := range chunks {
 		if o.Sandwich || (r != nil && o.Unknown && r.Intn(3) == 0) {
-			out = append(out, s.unknownField(t, sr)...)
+			out = append(out, unk(false)...)
 		}
 		out = append(out, c...)
 	}
 	if o.Sandwich || (r != nil && o.Unknown && r.Intn(2) == 0) {
-		out = append(out, s.unknownField(t, sr)...)
+		out = append(out, unk(true)...)
 	}
 	out = append(out, tr.ToBytes(m.U)...)
 	return out
